@@ -400,7 +400,7 @@ def replay_file(path):
     import json
     import C20_replay
     d = json.load(open(path))
-    if d['replay'].get('which') in ('announce', 'announce_battery'):
+    if d['replay'].get('which') in ('announce', 'announce_battery', 'child_exit'):
         import C20_announce_replay
         bad, _n = C20_announce_replay.battery()
         if d['replay']['which'] == 'announce':
